@@ -31,6 +31,10 @@ def eval_expr(e, env, hook=None):
         return int(e["v"])
     if "cv" in e:
         return int(e["cv"])
+    if k == "lazy" and e.get("lz") is not None:
+        return eval_expr(e["lz"], env, hook)
+    if k == "cond":
+        return eval_expr(e["x"] if eval_expr(e["c"], env, hook) else e["y"], env, hook)
     if k == "cast":
         v = eval_expr(e["e"], env, hook)
         if e.get("ck") in ("IntegralToBoolean", "PointerToBoolean"):
